@@ -399,6 +399,11 @@ pub fn run_c07(ctx: &Ctx) -> (&'static str, Map<String, Value>) {
             }
         }
     }
+    // a top tree whose cached aux levels exceed 64 KiB (offsets and level sizes beyond 16 bits): signing
+    // with the buffer keygen filled, and with a fresh one, at the first and the last leaves
+    for (s, ms) in [(0u64, Some(2u64)), (32766, None)] {
+        cfgs.push(cfg(ctx, Hid::S32, vec![hw(15, 1)], s, ms, 1, dev_aux()));
+    }
     let (agg, labels) = run_lattice(ctx, cfgs);
     ctx.assume("the randomizer C of an upper-level signature is pinned to the implementation's current derivation (child seed/I, parent leaf number); RFC 8554 leaves C open -- RFC validity is judged by the independent verifier");
     let mut m = coverage(ctx, &agg, &labels, RULE, true);
